@@ -91,6 +91,7 @@ package plush
 //@     ite(is(k, "string") && c.outer != nil, view(c.outer, box(unbox(k, "string"))), ctxval(c.Context, k)))
 
 //@ func (c *Context) Value
+//@ acquires c.moot
 //@ ensures def: result == view(c, key)
 //@ assigns nothing
 //@ decreases c
@@ -101,11 +102,13 @@ package plush
 
 // a copy of this context's own bindings, taken under the lock (used by the evaluator's scope-copy loops)
 //@ func (c *Context) snapshot
+//@ acquires c.moot
 //@ ensures copy: fresh(result) && (forall k string :: has(result, k) ==> has(c.data, k) && result[k] == c.data[k])
 //@ assigns fresh
 //@ loop 1: invariant m != nil && fresh(m) && (forall k string :: has(m, k) ==> has(c.data, k) && m[k] == c.data[k])
 
 //@ func (c *Context) Set
+//@ acquires c.moot
 //@ ensures put: has(c.data, key) && c.data[key] == value
 //@ ensures rest: forall k string :: k != key ==> has(c.data, k) == old(has(c.data, k)) && c.data[k] == old(c.data[k])
 //@ assigns contents(c.data)
